@@ -22,7 +22,7 @@ LINES = ["x = 5", "y = x * 2", "x + y", "x = x + 1", "total = 10 usd", "total * 
          "# note", "x = ", "10 / 0", "u = 5 km", "u to m", "when = 12 march 2020", "when + 3 days", "z = x + y",
          "z", "10 usd to xyz", "10 usd to try", "25 eur to nowhere", "25 eur to usd", "5 km to foo", "5 km to m", "3 hours as foo",
          "3 hours as minutes", "12 march 2020 at 25", "12 march 2020 at 10", "100 to foo", "100 to hex", "6 is what % of 0", "6 is what % of 12",
-         "99999999999999999 days", "2 days", "31/02/2021", "28/02/2021", "10:30 EST to XYZ", "10:30 EST to CET", "my value = 7", "my value * 3", "My Value + 1", "20% of 150", "0x1F + 1", "12:30 + 1 hour", "(1 + 2", "5 $ +"]
+         "99999999999999999 days", "2 days", "31/02/2021", "28/02/2021", "10:30 EST to XYZ", "10:30 EST to CET", "lead time = 3", "lead time * 2", "cost summary = 4", "cost summary + 1", "my value = 7", "my value * 3", "My Value + 1", "20% of 150", "0x1F + 1", "12:30 + 1 hour", "(1 + 2", "5 $ +"]
 
 
 def gen_text(rng):
@@ -100,6 +100,22 @@ def generate(rng, tier):
                 if runs:
                     interesting = True
         cases.append({"ops": ops, "meta": {"kind": "history", "checks": checks, "interesting": interesting}})
+    # pinned sessions with absolute expectations: a re-used session keeps its variables (whatever words the names
+    # are made of) across texts of differing line counts
+    pinned = [
+        (["lead time = 3\ntravel time = lead time + 5", "lead time * 2\ntravel time", "time = 4\ntime + lead time"],
+         [["3", "8"], ["6", "8"], ["4", "7"]]),
+        (["cost summary = 40\ncost = 3", "cost + 1\ncost summary * 2\n\ncost summary + cost"], [["40", "3"], ["4", "80", None, "43"]]),
+        (["a = 1\nb = a + 1\nb * 10", "a = 1\nb = a + 1\nb * 10", "b"], [["1", "2", "20"], ["1", "2", "20"], ["2"]]),
+    ]
+    for texts, outs in pinned:
+        ops = [{"op": "new_session", "sid": 1}, {"op": "set_language", "sid": 1, "lang": "en"}]
+        checks = []
+        for t, o in zip(texts, outs):
+            ops.append({"op": "set_text", "sid": 1, "text": t})
+            ops.append({"op": "exec_session", "sid": 1})
+            checks.append(("outs", len(ops) - 1, o, None))
+        cases.append({"ops": ops, "meta": {"kind": "pinned-session", "checks": checks, "interesting": True}})
     return cases
 
 
@@ -126,9 +142,15 @@ def spec_check(c, rec, header):
         return "history hung or crashed the harness"
     obs = rec["obs"]
     for kind, i, j, nlines in c["meta"]["checks"]:
-        a, b = obs[i], obs[j]
-        if "panic" in a or "panic" in b:
+        a = obs[i]
+        b = obs[j] if isinstance(j, int) else None
+        if "panic" in a or (b is not None and "panic" in b):
             return "operation %d panicked" % (i if "panic" in a else j)
+        if kind == "outs":
+            got = [None if l is None else l.get("out") for l in a.get("lines", [])]
+            if a.get("status") is not True or got != j:
+                return "pinned session, op %d: expected the outputs %r, got status %r and %r" % (i, j, a.get("status"), a.get("lines"))
+            continue
         if kind == "same":
             if a.get("status") != b.get("status") or [strip(l) for l in a["lines"]] != [strip(l) for l in b["lines"]]:
                 return "exec (op %d) differs from the same call on a fresh calculator: %r vs %r" % (i, a, b)
